@@ -51,7 +51,7 @@ def bound(tier):
 
 
 def floors(tier):
-    return {"distinct_nontrivial": 10, "states": 100, "count:schedules": 500, "count:digests": 60}
+    return {"distinct_nontrivial": 10, "states": 100, "count:schedules": 500, "count:digests": 60, "count:session_histories": 60}
 
 
 CONFIGS = ["plain", "screening", "adaptive", "tdep", "callable_currents", "hole_terminals", "four_terminals", "seeded_twice", "eps_tdep"]
